@@ -20,9 +20,10 @@ Theorem C17_encode_agrees : forall int_to_f64 narrow widen,
 Proof. exact ser_agree_enc. Qed.
 
 (* decoding the static encoder's bytes under the schema yields exactly the serde_json form.
-   small_seqs v (every sequence and map in v has at most 65536 elements) only matters for
-   elements that occupy no bytes: a longer run of those is known finding F9 of C18, where the
-   model answers DUnbounded instead of materialising the list *)
+   small_seqs v: every sequence in v either has at most 65536 elements or has no element with an
+   empty encoding (maps need nothing: an entry starts with its key's length prefix).  What it
+   excludes is exactly a run of more than 65536 elements that occupy no bytes: known finding F9 of
+   C18, where the model answers DUnbounded instead of materialising the list *)
 Theorem C17_decode_agrees : forall widen d v s,
   conforms d v s = true -> unamb v = true -> in_scope s = true -> small_seqs v = true ->
   from_slice_dyn widen s (enc (erase v)) = DOk (json_of widen v).
